@@ -5,6 +5,7 @@ import (
 	"crypto/sha256"
 	"encoding/hex"
 	"encoding/json"
+	"fmt"
 	"sort"
 
 	"massnet.org/mass-wallet/masswallet/db/ldb"
@@ -84,5 +85,7 @@ func (w *World) Key() string {
 	h.Write([]byte(DumpHash(w.RawDump())))
 	v, _ := json.Marshal(w.I.W.VerifVolatile())
 	h.Write(v)
+	// what the worker's queue holds (modelled by the harness in direct mode)
+	h.Write([]byte(fmt.Sprint(w.ImportQueued, w.RemoveFailed)))
 	return hex.EncodeToString(h.Sum(nil)[:16])
 }
